@@ -39,7 +39,14 @@ def rowappend_cases(rng, n):
         row = [rng.choice(CELLS[k]) for k in ks]
         if rng.random() < 0.15:
             row = row[:-1] if rng.random() < 0.5 else row + [["i", 0]]          # wrong width: must be refused
-        cs.append({"op": "rowappend", "cols": cols, "row": row})
+        cs.append({"op": "rowappend", "cols": cols, "row": row,
+                   # the row as a list, a tuple, or a one-shot iterable (a generator, an iterator): the same cells
+                   "rowform": rng.choice(["list", "list", "tuple", "gen", "iter"])})
+    # row views by position: t[i] is the i-th cell of every column for every i in range, an IndexError for every other i
+    for n in (0, 1, 2, 3, 5):
+        for i in range(-2 * n - 2, 2 * n + 3):
+            cs.append({"op": "rowappend", "cols": [[["i", 10 * j + r] for r in range(n)] for j in range(2)], "row": [],
+                       "rowindex": i})
     return cs
 
 
@@ -142,9 +149,27 @@ def _observe_rowappend(case):
     t = Table([Vector(c, name=f"c{j}") for j, c in enumerate(cols)])
     if not isinstance(t, Table):
         return {"skip": "not a table"}
+    if "rowindex" in case:
+        i = case["rowindex"]
+        want = None
+        try:
+            want = [repr(c[i]) for c in cols]
+        except IndexError:
+            pass
+        got = {}
+        for label, f in (("t[i]", lambda: [repr(x) for x in t[i]]), ("t[i, 0]", lambda: repr(t[i, 0])),
+                         ("t[i, 'c1']", lambda: repr(t[i, "c1"]))):
+            try:
+                got[label] = f()
+            except Exception as e:                           # noqa: BLE001
+                got[label] = ["raises", type(e).__name__]
+        return {"rowindex": i, "want": want, "got": got, "n": len(cols[0])}
     before = [[repr(x) for x in r] for r in t] if cols and cols[0] else []
+    form = case.get("rowform", "list")
+    given = {"list": lambda: list(row), "tuple": lambda: tuple(row), "gen": lambda: (x for x in row),
+             "iter": lambda: iter(list(row))}[form]()
     try:
-        out = t << row
+        out = t << given
     except Exception as e:                                   # noqa: BLE001
         return {"exc": type(e).__name__, "msg": str(e)[:120], "width_ok": len(row) == len(cols)}
     o = {"width_ok": len(row) == len(cols), "is_table": isinstance(out, Table), "before": before,
@@ -209,15 +234,29 @@ def oracle(case, obs):
         return _oracle_construct(case, obs)
     if case.get("op") != "rowappend":
         return _heap_oracle(case, obs)
+    if "rowindex" in obs:
+        i, want, got = obs["rowindex"], obs["want"], obs["got"]
+        exp = {"t[i]": want, "t[i, 0]": None if want is None else want[0], "t[i, 'c1']": None if want is None else want[1]}
+        for label, g in got.items():
+            raised = isinstance(g, list) and g[:1] == ["raises"]
+            if exp[label] is None and not raised:
+                return (f"rowindex-out-of-range: {label} with i = {i} on a table of {obs['n']} rows gives {g}; the columns have no "
+                        f"such row (an index outside -n .. n-1 is an error for every column)")
+            if exp[label] is not None and (raised or g != exp[label]):
+                return f"rowindex-rowview: {label} with i = {i} on a table of {obs['n']} rows gives {g}, the columns hold {exp[label]}"
+        return None
     if "skip" in obs:
         return None
     if "broken" in obs:
         return f"rowappend-observer: {obs['broken']}"
-    what = f"t << {case['row']} on columns {case['cols']}"
+    what = f"t << {case['row']} ({case.get('rowform', 'list')}) on columns {case['cols']}"
     if not obs["width_ok"]:
         if "exc" not in obs and obs.get("is_table"):
-            return f"rowappend-ragged-accepted: {what}: a row of the wrong width was stored"
+            return (f"rowappend-ragged-accepted: {what}: a row of the wrong width was stored (columns of lengths "
+                    f"{obs.get('lens')})")
         return None
+    if "exc" in obs and case.get("rowform") in ("gen", "iter"):
+        return None                   # a one-shot iterable may be refused outright (it has no length to check)
     if "exc" in obs:
         return f"rowappend-raises: {what} raised {obs['exc']}: {obs['msg']}"
     h = obs["h"]
